@@ -15,7 +15,8 @@
 // that delivers the whole stream in one read.  Failures are keyed by what the cut does: inside a multi-byte character
 // (C03:split-inside-multibyte-char), read starting with U+FEFF (C03:read-starting-with-zwnbsp-drops-it), otherwise by
 // stream name.  The first two and the two `special` header streams were genuine defects, fixed in repo commits
-// 49994ec / 381fe43; their witnesses stay first in the corpus.
+// 49994ec / 381fe43; their witnesses stay first in the corpus.  Section 10 generates bytes AFTER the closing tag
+// (key C03:bytes-after-stream-close; was a defect, fixed in repo commit 109544b: these streams must now pass).
 // The PrefixOracle hypothesis of the Lean theorems is measured on the real QDomDocument at every cut of every
 // corpus stream (S prefix_oracle_checks / prefix_oracle_violations).
 #include "common.h"
@@ -362,7 +363,8 @@ struct Runner {
         for (int c : cuts) { if (insideMultibyte(s.bytes, c)) mb = true; if (startsWithBom(s.bytes, c)) bom = true; }
         std::string cutsS;
         for (int c : cuts) cutsS += (cutsS.empty() ? "" : ",") + std::to_string(c);
-        std::string key = mb ? "C03:split-inside-multibyte-char" : bom ? "C03:read-starting-with-zwnbsp-drops-it" : "C03:split-changes-events:" + s.name;
+        std::string key = s.name.rfind("after-close", 0) == 0 ? "C03:bytes-after-stream-close"
+            : mb ? "C03:split-inside-multibyte-char" : bom ? "C03:read-starting-with-zwnbsp-drops-it" : "C03:split-changes-events:" + s.name;
         oracleFail(key, std::string(how) + " stream=" + s.name + " bytes=" + hexOf(s.bytes) + " cuts=" + cutsS +
                    " one-read=" + joinEvs(want) + " split=" + joinEvs(got));
         stat(mb ? "oracle_fail_inside_multibyte" : bom ? "oracle_fail_read_starts_with_zwnbsp" : "oracle_fail_other");
@@ -389,7 +391,7 @@ struct Runner {
 static QString wrapLikeTheCode(const QString &tag, const QString &buf, bool &hasOpen, bool &hasClose, QString &captured)
 {
     static const QRegularExpression streamStartRegex(QStringLiteral(R"re(^(<\?xml[^>]*\?>)?\s*<stream:stream(?:[^>'"]|'[^']*'|"[^"]*")*>)re"));
-    static const QRegularExpression streamEndRegex(QStringLiteral("</stream:stream>$"));
+    static const QRegularExpression streamEndRegex(QStringLiteral(R"(</stream:stream>\s*$)"));
     auto m = streamStartRegex.match(buf);
     hasOpen = m.hasMatch();
     captured = hasOpen ? m.captured() : QString();
@@ -525,8 +527,6 @@ int main(int argc, char **argv)
         corr(oracleOp(s), v == 0 ? "ok" : "violated");
         stat("stream_bytes_total", s.bytes.size());
     }
-    stat("prefix_oracle_checks", poChecks);
-    stat("prefix_oracle_violations", poViol);
 
     // 2. every 2-way split of every corpus stream (byte level, through the socket)
     QElapsedTimer timer; timer.start();
@@ -654,6 +654,62 @@ int main(int argc, char **argv)
         R.runSplit(b, cuts, "bomstart");
     }
 
+    // 10. bytes AFTER the closing tag (legal: XML allows white space after the root element, and servers commonly write a
+    //     line break after </stream:stream>): every 2-way split, bytewise, random k-way.  Reference = the one-read run, which
+    //     must itself deliver every item of the stream.  Any failure in this family has the key C03:bytes-after-stream-close.
+    {
+        const char *trailers[] = { " ", "\n", "\r\n", "\n\n", "\t ", " \n", "\r\n\r\n" };
+        int ti = 0;
+        for (size_t base : { size_t(0), size_t(18), size_t(22) }) {
+            for (const char *tr : trailers) {
+                Stream s = cs[base];
+                s.name = "after-close-" + std::to_string(ti++) + "-" + cs[base].name;
+                for (const char *c = tr; *c; c++) s.items.push_back({ 'w', QString(QChar(*c)) });
+                s.bytes.clear(); s.text.clear(); s.byteBoundaries.clear();
+                for (auto &it : s.items) { s.byteBoundaries.push_back(s.bytes.size()); s.text += it.text; s.bytes += it.text.toUtf8(); }
+                auto evs = nonKeepAlive(R.runBytes({ s.bytes }));
+                R.wholeEvents[s.name] = evs;
+                size_t want = 0;
+                for (auto &it : s.items) if (it.kind != 'w') want++;
+                {   // the PrefixOracle hypothesis for these streams too: QDomDocument and (driver) the Lean parser
+                    long long v = checkPrefixOracle(s, poChecks);
+                    poViol += v;
+                    if (v > 0) oracleFail("C03:prefix-oracle-violated:" + s.name, "QDomDocument does not satisfy the PrefixOracle hypothesis on " + hexOf(s.bytes));
+                    corr(oracleOp(s), v == 0 ? "ok" : "violated");
+                }
+                if (evs.size() != want) { oracleFail("C03:bytes-after-stream-close", "one-read run delivers " + std::to_string(evs.size()) + " of " + std::to_string(want) + " events: stream=" + s.name + " bytes=" + hexOf(s.bytes) + " one-read=" + joinEvs(evs)); stat("after_close_one_read_incomplete"); }
+                else oraclePass()++;
+                for (int k = 1; k < s.bytes.size(); k++) R.runSplit(s, { k }, "afterclose");
+                std::vector<int> cuts; for (int k = 1; k < s.bytes.size(); k++) cuts.push_back(k);
+                R.runSplit(s, cuts, "afterclose");
+                for (int j = 0; j < (thorough ? 60 : 6); j++) {
+                    std::vector<int> c2; int kk = 2 + int(rng.below(5));
+                    for (int i = 0; i < kk; i++) c2.push_back(1 + int(rng.below(uint32_t(s.bytes.size() - 1))));
+                    R.runSplit(s, c2, "afterclose");
+                }
+            }
+        }
+        // correspondence only (not valid streams): garbage / further stanzas / a second close after the closing tag,
+        // in the same read and in the next one
+        const char *NS = "<stream:stream xmlns:stream='http://etherx.jabber.org/streams' xmlns='jabber:client'>";
+        auto q = [](const std::string &x) { return QString::fromUtf8(x.c_str()); };
+        std::vector<std::vector<QString>> seqs = {
+            { q(std::string(NS) + "<a/></stream:stream>garbage") },
+            { q(std::string(NS) + "<a/></stream:stream>"), q("garbage"), q("<b/>") },
+            { q(std::string(NS) + "<a/></stream:stream><b/>") },
+            { q(std::string(NS) + "<a/></stream:stream><b/><c/></stream:stream>") },
+            { q(std::string(NS) + "<a/></stream:stream>"), q("<b/>"), q("</stream:stream>") },
+            { q(std::string(NS) + "<a/></stream:stream>"), q(" "), q("\r\n"), q("<b/>") },
+            { q(std::string(NS) + "<a/>"), q("</stream:stream> "), q("<b/>"), q("</stream:stream>") },
+            { q(std::string(NS) + "<a/>"), q("</stream:stream>\n<b/>") },
+            { q(std::string(NS) + "<a/></stream:stream></stream:stream>") },
+            { q(std::string(NS) + "<a/></stream:stream>\n"), q(std::string(NS) + "<b/>") },
+        };
+        for (auto &seq : seqs) { R.runText(seq); stat("after_close_probe_sequences"); }
+    }
+
+    stat("prefix_oracle_checks", poChecks);
+    stat("prefix_oracle_violations", poViol);
     stat("transport_retries", R.transportRetries);
     finish();
     return 0;
